@@ -228,7 +228,7 @@ class _TagMeta(type):
         super().__init__(clsname, bases, dict_)
 
     def __call__(cls, keyword, attributes, **kwargs):
-        if ":" in keyword:
+        if keyword.count(":") == 1:
             ns, defname = keyword.split(":")
             return type.__call__(
                 CallNamespaceTag, ns, defname, attributes, **kwargs
